@@ -1,0 +1,76 @@
+//go:build verif
+
+// Contracts checked by /verif/gvc (contract-based deductive verification).
+// This file contains comments only; it is compiled only under the "verif" build tag.
+
+package server
+
+// C08 — the will message; C05 — session lifecycle. Ghost state:
+//   srv.$fanout / $fanMsg / $fanSrc / $fanTopic / $fanMatch: number of fan-outs (server.deliverMessage calls) and the
+//   arguments of the last one; srv.$wills / $willMsg / $willClient: number of will publications started
+//   (sendWillLocked calls) and the arguments of the last one.
+
+//@ ghost field (server).fanout int
+//@ ghost field (server).fanMsg *gmqtt.Message
+//@ ghost field (server).fanSrc string
+//@ ghost field (server).fanTopic string
+//@ ghost field (server).fanMatch int
+
+// The fan-out itself (matching subscriptions, queueing per subscriber) is C01 / C02 / C11; here it is an opaque
+// step that is counted (trusted until deliverMessage is verified against it).
+//@ func (*server).deliverMessage trusted
+//@ requires srv != nil && msg != nil
+//@ modifies heap, ghost(srv.$fanout), ghost(srv.$fanMsg), ghost(srv.$fanSrc), ghost(srv.$fanTopic), ghost(srv.$fanMatch)
+//@ preserves all(server.*), all(Hooks.*), all(gmqtt.Message.*), all(WillMsgRequest.*)
+//@ ensures srv.$fanout == old(srv.$fanout) + 1 && srv.$fanMsg == msg && srv.$fanSrc == srcClientID && srv.$fanTopic == options.TopicName && srv.$fanMatch == int(options.MatchType)
+
+// OnWillPublish: plugin code; it may replace, edit or drop (nil) the message of the request and set the iteration
+// options. OnWillPublished: told about the message that was published.
+//@ ghost field (Hooks).wp int
+//@ ghost field (Hooks).wpMsg *gmqtt.Message
+//@ ghost field (Hooks).wpd int
+//@ ghost field (Hooks).wpdMsg *gmqtt.Message
+
+//@ func field (Hooks).OnWillPublish
+//@ params self, ctx, clientID, req
+//@ requires req != nil
+//@ modifies req.Message, req.IterationOptions.*, all(gmqtt.Message.*), ghost(self.$wp), ghost(self.$wpMsg)
+//@ ensures self.$wp == old(self.$wp) + 1 && self.$wpMsg == req.Message
+
+//@ func field (Hooks).OnWillPublished
+//@ params self, ctx, clientID, msg
+//@ modifies ghost(self.$wpd), ghost(self.$wpdMsg)
+//@ ensures self.$wpd == old(self.$wpd) + 1 && self.$wpdMsg == msg
+
+// sendWillLocked: what is published is the request's message as the OnWillPublish hook left it (nothing if it was
+// dropped), under the request's iteration options; a will with the retain flag also replaces (or, with an empty
+// payload, removes) the retained message of its topic; OnWillPublished is told about what was published.
+//@ func (*server).sendWillLocked
+//@ props C08 C14 C17
+//@ let H = srv.hooks
+//@ let R = srv.retainedDB
+//@ requires [C08] srv != nil && msg != nil && srv.retainedDB != nil
+//@ modifies heap, ghost(srv.$fanout), ghost(srv.$fanMsg), ghost(srv.$fanSrc), ghost(srv.$fanTopic), ghost(srv.$fanMatch), ghost(H.$wp), ghost(H.$wpMsg), ghost(H.$wpd), ghost(H.$wpdMsg), ghost(R.$msg), ghost(R.$ops)
+//@ preserves all(server.*), all(Hooks.*)
+//@ ensures [C14] old(H.OnWillPublish) != nil ==> H.$wp == old(H.$wp) + 1
+//@ ensures [C14 C08] old(H.OnWillPublish) != nil && H.$wpMsg == nil ==> srv.$fanout == old(srv.$fanout) && R.$ops == old(R.$ops) && H.$wpd == old(H.$wpd)
+//@ ensures [C14 C08] old(H.OnWillPublish) != nil && H.$wpMsg != nil ==> srv.$fanout == old(srv.$fanout) + 1 && srv.$fanMsg == H.$wpMsg && srv.$fanSrc == clientID
+//@ ensures [C08] old(H.OnWillPublish) == nil ==> srv.$fanout == old(srv.$fanout) + 1 && srv.$fanMsg == msg && srv.$fanSrc == clientID && srv.$fanTopic == msg.Topic && srv.$fanMatch == 2
+//@ ensures [C08 C07] srv.$fanout == old(srv.$fanout) + 1 && srv.$fanMsg.Retained && len(srv.$fanMsg.Payload) != 0 ==> R.$ops == old(R.$ops) + 1 && R.$msg[srv.$fanMsg.Topic] != nil && R.$msg[srv.$fanMsg.Topic].Topic == srv.$fanMsg.Topic
+//@ ensures [C08 C07] srv.$fanout == old(srv.$fanout) + 1 && srv.$fanMsg.Retained && len(srv.$fanMsg.Payload) == 0 ==> R.$ops == old(R.$ops) + 1 && R.$msg[srv.$fanMsg.Topic] == nil
+//@ ensures [C08 C07] srv.$fanout == old(srv.$fanout) + 1 && !srv.$fanMsg.Retained ==> R.$ops == old(R.$ops)
+//@ ensures [C14] srv.$fanout == old(srv.$fanout) + 1 && old(H.OnWillPublished) != nil ==> H.$wpd == old(H.$wpd) + 1 && H.$wpdMsg == srv.$fanMsg
+//@ call Hooks.OnWillPublish#1 assert [C14 C17] req.Message == msg && req.IterationOptions.TopicName == msg.Topic && req.IterationOptions.MatchType == 2 && req.IterationOptions.Type == 7
+//@ call server.deliverMessage#1 assert [C14 C17] old(H.OnWillPublish) != nil ==> options.TopicName == req.IterationOptions.TopicName && options.MatchType == req.IterationOptions.MatchType && options.Type == req.IterationOptions.Type && options.ClientID == req.IterationOptions.ClientID
+
+// setWillProperties copies every will property of the CONNECT packet into the message.
+//@ func setWillProperties
+//@ props C08
+//@ requires [C08] msg != nil
+//@ modifies msg.PayloadFormat, msg.MessageExpiry, msg.ContentType, msg.ResponseTopic, msg.CorrelationData, msg.UserProperties
+//@ ensures [C08] willPpt != nil && willPpt.PayloadFormat != nil ==> msg.PayloadFormat == *willPpt.PayloadFormat
+//@ ensures [C08] willPpt != nil && willPpt.MessageExpiry != nil ==> msg.MessageExpiry == *willPpt.MessageExpiry
+//@ ensures [C08] willPpt != nil && willPpt.ContentType != nil ==> msg.ContentType == string(willPpt.ContentType)
+//@ ensures [C08] willPpt != nil && willPpt.ResponseTopic != nil ==> msg.ResponseTopic == string(willPpt.ResponseTopic)
+//@ ensures [C08] willPpt != nil && willPpt.CorrelationData != nil ==> msg.CorrelationData == willPpt.CorrelationData
+//@ ensures [C08] willPpt != nil ==> msg.UserProperties == willPpt.User
